@@ -17,11 +17,25 @@ while a second file of the same package is a different component.  Section (e)
 gives every edge of every graph every spelling, and also puts a '%import P' line
 in front of texts for every package whose default component the schema already
 has (one more path to the same component).
+
+Wave 3: (f) homonyms - until now every role (key type, value datatype, section datatype) had ONE full name,
+so one spelling always meant one function.  Two self-similar module trees (vz.harness.c11n / c11o: P, P.inner,
+P.inner.inner) publish the same three leaf names with distinguishable behaviour at every level, and every
+name-resolving site of a schema document (schema element + top-level key, two section types with their own
+prefixes, a derived type with its own prefix, a section type inside an imported component that has a prefix of
+its own) carries every spelling pattern ('.leaf', '.inner.leaf', absolute), so that the SAME written name means
+something different at different sites of one document.  (g) histories - one schema object serves several
+reads: every ordered pair of '%import' lists (components the schema has / has not, repeated, reached through
+another package) is read one after the other against a fresh composed schema object, every read being held
+against the written-out expansion of (schema, its own %import lines).
 """
+import contextlib
+import functools
 import importlib
 import io
 import itertools
 import os
+import re
 import shutil
 import sys
 import tempfile
@@ -31,6 +45,7 @@ from vz import core
 from vz.engine import bfs
 from vz.gen import expand as X
 from vz.gen import schema as M
+from vz.harness import c11names
 from vz.harness import load as H
 from vz.harness import pkgs
 from vz.ref import match as R
@@ -180,9 +195,12 @@ def load_or_error(xml, url=H.SURL):
         return None, core.exc_desc(e)
 
 
-def compare(composed_xml, expanded_model, acc, mid, depth, feature, composed_loader=None, top_unordered=False):
-    """Load both; replay the BFS of the expanded schema on both."""
+def compare(composed_xml, expanded_model, acc, mid, depth, feature, composed_loader=None, top_unordered=False,
+            ref_model=None, on_text=None):
+    """Load both; replay the BFS of the expanded schema on both.  `ref_model`: the view of the expansion given to
+    C01's reference model (which only tells the unspecified texts apart) when it does not know a datatype."""
     Sx = expanded_model
+    Sr = ref_model if ref_model is not None else Sx
     ex_xml = M.render(Sx)
     sch_e, err_e = load_or_error(ex_xml)
     if composed_loader is not None:
@@ -192,6 +210,7 @@ def compare(composed_xml, expanded_model, acc, mid, depth, feature, composed_loa
     acc.ev()
     acc.states += 1
     case0 = dict(mid, composed=composed_xml, expanded=ex_xml)
+    smid = {k: v for k, v in mid.items() if k not in ("component", "files")}      # samples: no generated names
     if (sch_e is None) != (sch_c is None) or isinstance(err_e, dict) or isinstance(err_c, dict):
         acc.violation("schema-acceptance-differs", case0, ["composed", err_c or "accepted"],
                       ["expanded", err_e or "accepted"], tags={"kind": "schema-acceptance", "feature": feature})
@@ -215,8 +234,10 @@ def compare(composed_xml, expanded_model, acc, mid, depth, feature, composed_loa
         if any(e[0] != "c" for e in hist):
             acc.nt()
         acc.cls("text:%s" % oe[0])
-        acc.sample(lambda: dict(mid, text=text, outcome=oe[0]))
-        ref = R.decide(Sx, hist)
+        acc.sample(lambda: dict(smid, text=text, outcome=oe[0]))
+        ref = R.decide(Sr, hist)
+        if on_text is not None:
+            on_text(hist, oe)
         if ref.verdict == "U":
             # order-dependent slot search (C01 u1-u3): nothing is specified, so nothing is compared
             acc.cls("text:unspecified")
@@ -705,6 +726,469 @@ def all_refs(top, pb_edges, pc_edges, order):
     return out
 
 
+# ---------------------------------------------------------------------------
+# (f) homonyms: one spelling, several meanings
+#
+# vz.harness.c11n and vz.harness.c11o are self-similar trees P, P.inner, P.inner.inner; every level publishes
+# conv / key / sect with its own distinguishable behaviour (vz.harness.c11names).  A *site* is an element whose
+# attributes name conversions: the schema element together with its top-level key, a section type (with the
+# keys inside), a derived type.  Every site carries one spelling pattern for all its names.
+
+RN, RO = "vz.harness.c11n", "vz.harness.c11o"
+LEVELS = tuple(c11names.TAGS)
+H_ABS = RN + ".inner"                      # what the absolute spelling names, wherever it is written
+H_PATTERNS = ("rel", "relinner", "abs")    # '.leaf' | '.inner.leaf' | 'vz.harness.c11n.inner.leaf'
+H_LEAVES = ("conv", "key", "sect")
+for _lvl in LEVELS:
+    M.VALUE_TOKENS[_lvl + ".conv"] = ["v"]
+    M.BAD_KEY_TOKEN[_lvl + ".key"] = "a-b"
+    R.ALIASES[_lvl + ".conv"] = "string"           # accepts every text (the tag shows in the tree only)
+    R.KEYTYPES[_lvl + ".key"] = functools.partial(c11names.key_rule, c11names.TAGS[_lvl])
+
+
+def h_names(pattern, eff, force=False):
+    """{leaf: spelling} for a site whose effective prefix is `eff`, or None when the pattern names nothing there"""
+    out = {}
+    for leaf in H_LEAVES:
+        if pattern == "abs":
+            out[leaf] = H_ABS + "." + leaf
+            continue
+        sp = ("." if pattern == "rel" else ".inner.") + leaf
+        if (eff + sp).rsplit(".", 1)[0] not in LEVELS and not force:
+            return None
+        out[leaf] = sp
+    return out
+
+
+H_P0 = (RN, RN + ".inner")
+H_PT = (None, ".inner", RN, RO)            # inherited | relative | absolute outward / same | absolute elsewhere
+H_PD = (None, ".inner", RO)
+H_PC = ("", RN, RO + ".inner")             # prefix of the other document (component / base schema file); '' = none
+
+
+def other_doc(desc):
+    """prefix of the document h2 is defined in when that is not the schema document itself ('' = it has none)"""
+    return desc[0][2:] if desc[0][:2] in ("K:", "X:") else None
+
+
+def h2_prefix(desc):
+    pc = other_doc(desc)
+    return X.eff_prefix(desc[1] if pc is None else pc, desc[3])
+
+
+def homonym_space(tier):
+    """descriptors (family, p0, pt1, pt2, pd, s0, s1, s2, sd, key_first); a site that is absent has None.
+    family A: schema + h1 + derived hd; B: schema + h1 + h2; C (thorough): all four sites;
+    K: schema + h1 + h2 defined in an imported component with a prefix of its own (pt2 relative to that);
+    X: the same with h2 (and its slot) in a base schema file that the schema extends."""
+    out = []
+
+    def ok(p0, pt1, pt2, pd, s0, s1, s2, sd, pc=None):
+        if h_names(s0, p0) is None or h_names(s1, X.eff_prefix(p0, pt1)) is None:
+            return False
+        if s2 is not None and pc != "" and h_names(s2, X.eff_prefix(pc or p0, pt2)) is None:
+            return False            # (in a document without a prefix every pattern is kept: relative names name nothing)
+        if sd is not None and h_names(sd, X.eff_prefix(p0, pd)) is None:
+            return False
+        return True
+    P3 = list(itertools.product(H_PATTERNS, repeat=3))
+    for p0 in H_P0:
+        for pt1 in H_PT:
+            if tier == "quick":
+                for pd in H_PD:
+                    for s0, s1, sd in P3:
+                        for kf in (False, True):
+                            if ok(p0, pt1, None, pd, s0, s1, None, sd):
+                                out.append(("A", p0, pt1, None, pd, s0, s1, None, sd, kf))
+                for pt2 in H_PT:
+                    for s0, s1, s2 in P3:
+                        if ok(p0, pt1, pt2, None, s0, s1, s2, None):
+                            out.append(("B", p0, pt1, pt2, None, s0, s1, s2, None, False))
+            else:
+                for pt2 in H_PT:
+                    for pd in H_PD:
+                        for s0, s1, s2, sd in itertools.product(H_PATTERNS, repeat=4):
+                            for kf in (False, True):
+                                if ok(p0, pt1, pt2, pd, s0, s1, s2, sd):
+                                    out.append(("C", p0, pt1, pt2, pd, s0, s1, s2, sd, kf))
+        for pt1 in (None, ".inner"):
+            for pc in H_PC:
+                for pt2 in ((None, ".inner") if pc else (None, RO)):
+                    for s0, s1, s2 in P3:
+                        if ok(p0, pt1, pt2, None, s0, s1, s2, None, pc=pc):
+                            out.append(("K:" + pc, p0, pt1, pt2, None, s0, s1, s2, None, False))
+                            out.append(("X:" + pc, p0, pt1, pt2, None, s0, s1, s2, None, False))
+    return out
+
+
+def homonym_model(desc):
+    """-> (composed model without h2 when h2 lives in a component, h2 or None, component prefix or None)"""
+    fam, p0, pt1, pt2, pd, s0, s1, s2, sd, kf = desc
+    pc = other_doc(desc)
+    n0 = h_names(s0, p0)
+    n1 = h_names(s1, X.eff_prefix(p0, pt1))
+    h1 = M.SType("h1", (M.Key("pk", n1["conv"], default="1"),
+                        M.Key("+", n1["conv"], attribute="w", default=(("Da", "x"),))),
+                 keytype=n1["key"], datatype=n1["sect"], prefix=pt1)
+    types = [h1]
+    items = [M.Key("topk", n0["conv"], default="0"), M.Sect("*", "h1", attribute="s1", multi=True)]
+    h2 = None
+    if s2 is not None:
+        n2 = h_names(s2, h2_prefix(desc), force=True)
+        h2 = M.SType("h2", (M.Key("pk", n2["conv"], default="2"), M.MultiKey("pm", n2["conv"], defaults=("a",))),
+                     keytype=n2["key"], datatype=n2["sect"], prefix=pt2)
+        if pc is None:
+            types.append(h2)
+        items.append(M.Sect("*", "h2", attribute="s2", multi=True))
+    if sd is not None:
+        nd = h_names(sd, X.eff_prefix(p0, pd))
+        types.append(M.SType("hd", (M.Key("extra", nd["conv"], default="3"),), extends="h1", datatype=nd["sect"],
+                             prefix=pd))
+        items.append(M.Sect("*", "hd", attribute="sd", multi=True))
+    S = M.Schema(types=tuple(types), items=tuple(items), prefix=p0, keytype=n0["key"], datatype=n0["sect"])
+    return S, h2, pc
+
+
+def without_section_datatypes(S):
+    """C01's reference model knows no section datatype of the homonym trees; they accept every section, so
+    for telling the unspecified texts apart they are left out."""
+    return replace(S, datatype=None, types=tuple(replace(t, datatype=None) if isinstance(t, M.SType) else t
+                                                  for t in S.types))
+
+
+def site_prefixes(desc):
+    fam, p0, pt1, pt2, pd, s0, s1, s2, sd, kf = desc
+    out = [(s0, p0), (s1, X.eff_prefix(p0, pt1))]
+    if s2 is not None:
+        out.append((s2, h2_prefix(desc)))
+    if sd is not None:
+        out.append((sd, X.eff_prefix(p0, pd)))
+    return out
+
+
+def shard_homonyms(arg, acc):
+    lo, hi, tier = arg
+    space = homonym_space(tier)
+    depth = 1 if tier == "quick" else 2
+    P = None
+    d = None
+    comps, bases = {}, {}
+    try:
+        for idx in range(lo, min(hi, len(space))):
+            desc = space[idx]
+            S, h2, pc = homonym_model(desc)
+            mid = {"feature": "homonyms", "sites": list(desc)}
+            loader = None
+            unordered = False
+            if pc is None:
+                full = S
+                composed_xml = M.render(S)
+            else:
+                # the expansion: the type of the other document defined in place under that document's own
+                # prefix (absolute: nothing of the importing / extending document reaches into it); a
+                # relative name that has no enclosing prefix in its own document names nothing
+                h2x = replace(h2, prefix=h2_prefix(desc) or None)
+                nameless = h_names(desc[7], h2_prefix(desc)) is None
+                if desc[0].startswith("K:"):
+                    if P is None:
+                        P = pkgs.Packages()
+                    ck = (pc, h2)
+                    if ck not in comps:
+                        comps[ck] = P.add_component("h%d" % len(comps), [h2], prefix=pc or None)
+                    composed_xml = M.render(replace(S, imports=(comps[ck],), import_pos=0))
+                    full = replace(S, types=(h2x,) + S.types)
+                    mid["component"] = open(os.path.join(P.dir, comps[ck], "component.xml")).read()
+                else:
+                    if d is None:
+                        d = tempfile.mkdtemp(prefix="vz-c11-", dir="/dev/shm" if os.path.isdir("/dev/shm") else None)
+                    slot2 = [it for it in S.items if isinstance(it, M.Sect) and it.type == "h2"]
+                    own = tuple(it for it in S.items if it not in slot2)
+                    ck = (pc, h2)
+                    if ck not in bases:
+                        bases[ck] = "hbase%d.xml" % len(bases)
+                        with open(os.path.join(d, bases[ck]), "w") as f:
+                            f.write(M.render(M.Schema(types=(h2,), items=tuple(slot2), prefix=pc or None)))
+                    composed_xml = M.render(replace(S, items=own, extends=(bases[ck],)))
+                    path = os.path.join(d, "htop.xml")
+                    with open(path, "w") as f:
+                        f.write(composed_xml)
+                    full = replace(S, types=(h2x,) + S.types, items=tuple(slot2) + own)
+                    unordered = True
+                    mid["files"] = {bases[ck]: open(os.path.join(d, bases[ck])).read(), "htop.xml": composed_xml}
+
+                    def loader(path=path):
+                        import ZConfig
+                        try:
+                            return ZConfig.loadSchema(path), None
+                        except ZConfig.SchemaError as e:
+                            return None, "SchemaError: %s" % str(e)[:100]
+                        except Exception as e:
+                            return None, core.exc_desc(e)
+            if pc is not None and nameless:
+                sch, err = loader() if loader is not None else load_or_error(composed_xml)
+                acc.ev()
+                acc.states += 1
+                acc.cls("homonyms:relative-name-in-a-document-without-prefix")
+                if sch is not None or isinstance(err, dict):
+                    acc.violation("relative-name-without-enclosing-prefix-accepted", dict(mid, composed=composed_xml),
+                                  err or "accepted", "SchemaError",
+                                  tags={"kind": "schema-acceptance", "feature": "homonyms"})
+                else:
+                    acc.cls("both-refused")
+                continue
+            if desc[9]:
+                lines = composed_xml.split("\n")
+                i = [n for n, l in enumerate(lines) if l.startswith('  <key name="topk"')][0]
+                lines.insert(1, lines.pop(i))
+                composed_xml = "\n".join(lines)
+            Sx = X.expand(full)
+            sites = site_prefixes(desc)
+            same = set()
+            for (sa, pa), (sb, pb) in itertools.combinations(sites, 2):
+                if sa == sb and sa != "abs" and pa != pb:
+                    same.add("homonyms:one-relative-spelling-under-two-effective-prefixes")
+                if sa != sb and sa != "abs" and sb != "abs":
+                    ta = pa + ("" if sa == "rel" else ".inner")
+                    tb = pb + ("" if sb == "rel" else ".inner")
+                    if ta == tb:
+                        same.add("homonyms:one-function-under-two-relative-spellings")
+            for k in same:
+                acc.cls(k)
+            acc.cls("homonyms:family-" + desc[0][0])
+            if desc[9]:
+                acc.cls("homonyms:top-level-key-before-the-types")
+            seen = set()
+
+            def on_text(hist, oe, seen=seen):
+                if oe[0] == "A":
+                    for tag in c11names.TAGS.values():
+                        if tag not in seen and ("'%s'" % tag) in repr(oe):
+                            seen.add(tag)
+            compare(composed_xml, Sx, acc, mid, depth, "homonyms", ref_model=without_section_datatypes(Sx),
+                    on_text=on_text, composed_loader=loader, top_unordered=unordered)
+            acc.cls("homonyms:levels-visible-in-trees-%d" % len(seen))
+    finally:
+        if P is not None:
+            P.close()
+        if d is not None:
+            shutil.rmtree(d, ignore_errors=True)
+    return acc
+
+
+# ---------------------------------------------------------------------------
+# (g) histories: one schema object, several reads with %import lines
+#
+# Each read of a history is held against the expansion of (the schema, the %import lines of THAT text):
+# the types of every component not yet part of the schema written out in place, once, in first-import order,
+# and the text without the lines.  What an earlier read imported must not matter.
+
+H_PKGS = ("pa", "pb", "pc")
+
+
+def q_lists(maxlen):
+    out = []
+    for n in range(0, maxlen + 1):
+        out += list(itertools.product(H_PKGS, repeat=n))
+    return out
+
+
+def history_worlds():
+    return [(pb_imp, pc_imp) for pb_imp in ((), ("pa",))
+            for pc_imp in ((), ("pa",), ("pb",), ("pa", "pb"), ("pb", "pa"))]
+
+
+def history_bounds(tier):
+    """(schema import lists, first-read lists, second-read lists, third-read lists or None)"""
+    if tier == "quick":
+        return q_lists(1), q_lists(2), q_lists(2), q_lists(1)
+    return q_lists(2), q_lists(2), q_lists(2), q_lists(1)
+
+
+def quick_body(hist):
+    """quick tier: of the texts of depth 1, those whose section name is absent or 'n1' (and all key lines)"""
+    return not hist or hist[-1][0] == "k" or hist[-1][2] in (None, "n1")
+
+
+def shard_histories(arg, acc):
+    world, top, tier = arg
+    pb_imp, pc_imp = world
+    tops, q1s, q2s, q3s = history_bounds(tier)
+    ta = M.SType("ta", (M.Key("ak", default="a"),), implements="a")
+    tb = M.SType("tb", (M.Key("bk"),), extends="ta")
+    tc = M.SType("tc", (M.MultiKey("cm"),), implements="a")
+    tdefs = {"pa": [ta], "pb": [tb], "pc": [tc]}
+    deps = {"pa": (), "pb": pb_imp, "pc": pc_imp}
+    P = pkgs.Packages()
+    try:
+        rn = {}
+        rn["pa"] = P.add_component("pa", tdefs["pa"])
+        rn["pb"] = P.add_component("pb", tdefs["pb"], imports=[P.name(x) for x in pb_imp])
+        rn["pc"] = P.add_component("pc", tdefs["pc"], imports=[P.name(x) for x in pc_imp])
+        files = {rn[p]: open(os.path.join(P.dir, rn[p], "component.xml")).read() for p in H_PKGS}
+
+        def closure(lst):
+            """components read, in first-import order; the types they define in that order; ill = a type is
+            used before its definition"""
+            order, seq = [], []
+
+            def imp(p):
+                if p in order:
+                    return
+                order.append(p)
+                for q in deps[p]:
+                    imp(q)
+                seq.extend(tdefs[p])
+            for p in lst:
+                imp(p)
+            defined = [t.name for t in seq]
+            ill = any(t.extends and t.extends not in defined[:i] for i, t in enumerate(seq))
+            return order, seq, ill
+
+        order_top, seq_top, ill_top = closure(top)
+        items = [M.Sect("*", "a", attribute="abs", multi=True)]
+        if not ill_top:
+            items += [M.Sect("*", t.name, attribute="s_" + t.name, multi=True) for t in seq_top]
+        composed = M.Schema(types=(M.AType("a"),), items=tuple(items), imports=tuple(rn[p] for p in top), import_pos=1)
+        composed_xml = M.render(composed)
+        base = {"feature": "import-history", "schema_imports": list(top), "pb_imports": list(pb_imp),
+                "pc_imports": list(pc_imp), "composed": composed_xml, "components": files}
+        if ill_top:
+            sch, err = load_or_error(composed_xml)
+            acc.ev()
+            acc.states += 1
+            if sch is not None or isinstance(err, dict):
+                acc.violation("import-order-makes-type-undefined-but-accepted", base, err or "accepted", "SchemaError",
+                              tags={"kind": "schema-acceptance", "feature": "import-history"})
+            else:
+                acc.cls("both-refused")
+            return acc
+        depth = 1
+        cache = {}
+
+        def expected(Q):
+            """None when the expansion is not a schema (the read must be refused), else (expanded xml,
+            [(hist, body, outcome, reference verdict)])"""
+            order, seq, ill = closure(tuple(top) + tuple(Q))
+            if ill:
+                return None
+            k = tuple(t.name for t in seq)
+            if k not in cache:
+                Sx = X.expand(M.Schema(types=(M.AType("a"),) + tuple(seq), items=tuple(items)))
+                ex_xml = M.render(Sx)
+                sch_e, err_e = load_or_error(ex_xml)
+                if sch_e is None:
+                    raise core.HarnessError("expansion of a schema with %%import'ed types refused: %r" % (err_e,))
+                texts = []
+
+                def collect(hist, text):
+                    oe = outcome(sch_e, text)
+                    ref = R.decide(Sx, hist)
+                    if tier != "quick" or quick_body(hist):
+                        texts.append((hist, text, oe, ref.verdict))
+                    return oe[0] != "I" and ref.verdict != "U"
+                sub = core.Acc()
+                bfs.explore(Sx, sch_e, (), depth, sub, collect)
+                # ... and a section of every type of the world that is NOT part of this expansion (what an
+                # earlier read imported is not there for this one)
+                foreign = [t.name for p in H_PKGS for t in tdefs[p] if t.name not in k]
+                for tn in foreign:
+                    h = (("e", tn, None),)
+                    texts.append((h, H.render_events(h), outcome(sch_e, H.render_events(h)), R.decide(Sx, h).verdict))
+                acc.ev(1 + sub.transitions + len(foreign))
+                acc.states += 1 + sub.states
+                cache[k] = (ex_xml, texts, k)
+            return cache[k]
+
+        def read(sch_c, Q, exp, bodies, earlier, first, earlier_q):
+            """one read per body against `sch_c`; -> False as soon as one differs"""
+            lines = "".join("%%import %s\n" % rn[p] for p in Q)
+            for hist, body, oe, verdict in bodies:
+                text = lines + body
+                oc = outcome(sch_c, text)
+                acc.ev()
+                acc.transitions += 1
+                if first:
+                    acc.nt()
+                want = oe if exp is not None else ("R",)
+                acc.cls("text:%s" % want[0])
+                acc.sample(lambda: {"feature": "import-history", "schema_imports": list(top),
+                                    "pb_imports": list(pb_imp), "pc_imports": list(pc_imp),
+                                    "earlier_reads_import": [list(q) for q in earlier_q], "this_read_imports": list(Q),
+                                    "body": body, "outcome": want[0]})
+                if verdict == "U":
+                    acc.cls("text:unspecified")
+                    continue
+                if oc != want:
+                    acc.violation("read-differs-from-expansion-of-schema-plus-its-own-%import-lines",
+                                  dict(base, earlier_reads=list(earlier), text=text, body=body,
+                                       expanded=exp[0] if exp is not None else None),
+                                  ["composed", oc[0], repr(oc[1:])[:300]], ["expanded", want[0], repr(want[1:])[:300]],
+                                  tags={"kind": "history-differs", "feature": "import-history", "composed": oc[0],
+                                        "expanded": want[0], "read": len(earlier) + 1,
+                                        "earlier_read_imported": bool(first)})
+                    return False
+            return True
+
+        REFUSED = [((), "", ("R",), "R")]
+        top_set = set(order_top)
+
+        def history(qs):
+            sch_c, err_c = load_or_error(composed_xml)
+            acc.ev()
+            acc.states += 1
+            if sch_c is None:
+                acc.violation("schema-acceptance-differs", base, ["composed", err_c], ["expanded", "accepted"],
+                              tags={"kind": "schema-acceptance", "feature": "import-history"})
+                return
+            earlier = []
+            new_before = set()          # components an earlier read brought in although the schema has not got them
+            refused_before = False
+            for n, Q in enumerate(qs):
+                exp = expected(Q)
+                last = n == len(qs) - 1
+                if exp is None:
+                    bodies = REFUSED
+                elif last:
+                    bodies = exp[1]
+                else:
+                    bodies = [t for t in exp[1] if not t[0]]          # the empty body
+                if last:
+                    mine = set(closure(tuple(top) + tuple(Q))[0]) - top_set
+                    if new_before:
+                        acc.cls("history:last-read-after-a-read-that-imported-an-absent-component")
+                    if set(Q) & new_before:
+                        acc.cls("history:last-read-imports-again-what-an-earlier-read-imported")
+                    if (mine & new_before) - set(Q):
+                        acc.cls("history:last-read-reaches-an-earlier-read's-component-through-another-package")
+                    if refused_before:
+                        acc.cls("history:last-read-after-a-refused-read")
+                    if exp is None:
+                        acc.cls("history:last-read-must-be-refused")
+                    elif any(t.name not in exp[2] for p in new_before for t in tdefs[p]):
+                        acc.cls("history:last-read-names-a-type-only-an-earlier-read-imported")
+                if not read(sch_c, Q, exp, bodies, earlier, bool(new_before), qs[:n]):
+                    return
+                earlier.append("".join("%%import %s\n" % rn[p] for p in Q))
+                if exp is not None:
+                    new_before |= set(closure(tuple(top) + tuple(Q))[0]) - top_set
+                else:
+                    refused_before = True
+
+        for q1 in q1s:
+            for q2 in q2s:
+                history((q1, q2))
+                acc.cls("history:pairs")
+        if q3s is not None:
+            for q1 in q3s:
+                for q2 in q3s:
+                    for q3 in q3s:
+                        history((q1, q2, q3))
+                        acc.cls("history:triples")
+    finally:
+        P.close()
+    return acc
+
+
 def import_combos(tier):
     out = []
     for pb_imp in ((), ("pa",)):
@@ -721,6 +1205,9 @@ def run(tier):
     nim = len(import_combos(tier))
     nsp = len(spelling_space(tier))
     ntop = len(top_lists(tier))
+    nho = len(homonym_space(tier))
+    hb = history_bounds(tier)
+    nhist = len(history_worlds()) * len(hb[0]) * (len(hb[1]) * len(hb[2]) + (len(hb[3]) ** 3 if hb[3] else 0))
     run = core.Run(
         "C11", tier, "model_checking",
         rule="%d extends chains (length 1..3; every item kind per link; key type / datatype / implements overridden at "
@@ -741,14 +1228,39 @@ def run(tier):
              "(acceptance, structure, every text of the BFS to depth %d), and every text of depth <= %d also with a "
              "'%%import P' line in front for every package P whose default component the schema already has "
              "(thorough: lists of length 3 use the quick alphabet and text depth 1 / 0).  "
+             "Homonyms (wave 3): two module trees P, P.inner, P.inner.inner (vz.harness.c11n, c11o) publish the leaf names "
+             "conv (value datatype), key (key type), sect (section datatype) with a different, visible behaviour at each "
+             "of the 6 levels; %d schemas = schema prefix in {c11n, c11n.inner} x section-type prefixes in {none, '.inner', "
+             "c11n, c11o} x derived-type prefix in {none, '.inner', c11o} x ONE SPELLING PATTERN PER SITE out of {'.leaf', "
+             "'.inner.leaf', absolute c11n.inner.leaf} for the sites schema element + top-level key / section type h1 / "
+             "section type h2 / type hd derived from h1 (patterns that name nothing are left out) x the top-level key "
+             "written after or before the types; quick: sites {schema, h1, hd} (both orders) and {schema, h1, h2}, "
+             "thorough: all four sites; plus h2 defined in another DOCUMENT - an imported component, and a base schema file "
+             "that the schema extends - with a prefix of its own (c11n or c11o.inner; h2 prefix none / '.inner') or with "
+             "none (h2 prefix none / c11o; a relative name that has no enclosing prefix in ITS document names nothing: "
+             "the schema must be refused whatever the prefix of the importing document); each against its expansion: acceptance, structure, BFS to depth %d.  "
+             "Histories (wave 3): 10 package worlds (pb imports [] / [pa]; pc imports 5 lists) x schema import lists of "
+             "length <= %d over {pa, pb, pc}: %d histories (less those of schemas refused by themselves; classes history:pairs / history:triples), each on a FRESH composed schema object: every ordered pair of "
+             "%%import lists (length <= 2 over {pa, pb, pc}, repeats included) and every triple of lists of length <= 1; the earlier reads have an empty body, the "
+             "last read carries every text of the depth-1 BFS of ITS expansion%s and '<t/>' for every type of the three packages that is not part of it; every read must equal the expansion of "
+             "(schema, the %%import lines of that text): types of components not yet present written out in place once in "
+             "first-import order, refusal when that uses a type before its definition.  "
              "states = schemas + BFS states, transitions = texts.  "
-             "Non-trivial = text with >= 1 key or section event (every type here exists through composition)."
+             "Non-trivial = text with >= 1 key or section event (every type here exists through composition); in a history: a "
+             "read made after a read that %%import'ed a component the schema has not got."
              % (nch, npr, nim, 2 if tier == "quick" else 3, ", ".join(SPELL[tier][None]), nsp, ntop, nsp * ntop,
-                1 if tier == "quick" else 2, 0 if tier == "quick" else 1),
+                1 if tier == "quick" else 2, 0 if tier == "quick" else 1,
+                nho, 1 if tier == "quick" else 2, 1 if tier == "quick" else 2, nhist,
+                " (section names none / n1)" if tier == "quick" else ""),
         bounds={"chains": nch, "prefix_schemas": npr, "import_graphs": nim, "depth": 3,
                 "import_spelling_package_sets": nsp, "import_spelling_schema_import_lists": ntop,
                 "import_spelling_schemas": nsp * ntop, "import_spelling_alphabet": list(SPELL[tier][None]),
-                "import_spelling_text_depth": 1 if tier == "quick" else 2},
+                "import_spelling_text_depth": 1 if tier == "quick" else 2,
+                "homonym_schemas": nho, "homonym_levels": list(LEVELS), "homonym_spelling_patterns": list(H_PATTERNS),
+                "homonym_text_depth": 1 if tier == "quick" else 2,
+                "import_histories": nhist, "history_schema_import_lists": len(hb[0]),
+                "history_first_read_lists": len(hb[1]), "history_last_read_lists": len(hb[2]),
+                "history_triples_over_lists": len(hb[3]) if hb[3] else 0, "history_text_depth": 1},
         assumptions=["expansion rules of vz/gen/expand.py written from the statement",
                      "merge order of base schemas is not fixed by the statement: top-level attribute order is not compared there",
                      "not generated (unspecified): a derived key type under which declared base key names are not fixed points"])
@@ -764,9 +1276,34 @@ def run(tier):
     core.pmap(shard_imports, [(lo, lo + step, tier) for lo in range(0, nim, step)], run.acc)
     step = max(1, (nsp + 63) // 64)
     core.pmap(shard_spellings, [(lo, lo + step, tier) for lo in range(0, nsp, step)], run.acc, shard_budget=3000.0)
+    step = max(1, (nho + 63) // 64)
+    core.pmap(shard_homonyms, [(lo, lo + step, tier) for lo in range(0, nho, step)], run.acc, shard_budget=3000.0)
+    core.pmap(shard_histories, [(w, top, tier) for w in history_worlds() for top in hb[0]], run.acc,
+              shard_budget=3000.0)
     a = run.acc
     a.traces = a.transitions
     c = a.classes
+    run.require(c.get("homonyms:one-relative-spelling-under-two-effective-prefixes", 0) > 300,
+                "homonym axis: few schemas write one relative spelling under two different effective prefixes")
+    run.require(c.get("homonyms:one-function-under-two-relative-spellings", 0) > 100,
+                "homonym axis: few schemas name one function by two relative spellings")
+    run.require(c.get("homonyms:top-level-key-before-the-types", 0) > 100,
+                "homonym axis: few schemas with the top-level key in front of the section types")
+    run.require(c.get("homonyms:relative-name-in-a-document-without-prefix", 0) > 50,
+                "homonym axis: few schemas whose other document has no prefix but relative names")
+    run.require(c.get("homonyms:family-K", 0) > 50, "homonym axis: few schemas with a prefixed component")
+    run.require(c.get("homonyms:family-X", 0) > 50, "homonym axis: few schemas extending a prefixed base schema file")
+    run.require(sum(v for k, v in c.items() if k.startswith("homonyms:levels-visible-in-trees-")
+                    and int(k.rsplit("-", 1)[1]) >= 2) > 300,
+                "homonym axis: few schemas whose accepted texts show conversions of two or more levels")
+    run.require(c.get("history:last-read-imports-again-what-an-earlier-read-imported", 0) > 200,
+                "history axis: few histories import a component again that an earlier read imported")
+    run.require(c.get("history:last-read-reaches-an-earlier-read's-component-through-another-package", 0) > 50,
+                "history axis: few histories reach an earlier read's component through another package")
+    run.require(c.get("history:last-read-names-a-type-only-an-earlier-read-imported", 0) > 200,
+                "history axis: few histories whose last read names a type that only an earlier read imported")
+    run.require(c.get("history:last-read-after-a-refused-read", 0) > 20,
+                "history axis: few histories continue after a read that had to be refused")
     run.require(c.get("imports:same-component-spelled-differently", 0) > 1000,
                 "import-spelling axis: few schemas reach one component under two different spellings")
     run.require(c.get("imports:two-files-of-one-package", 0) > 1000,
@@ -781,26 +1318,132 @@ def run(tier):
     return run
 
 
-def replay(body):
-    case = body["case"]
+@contextlib.contextmanager
+def rebuilt_packages(files):
+    """{package name: text of its component.xml} -> importable packages on a scratch sys.path entry"""
+    base = tempfile.mkdtemp(prefix="vz-c11-", dir="/dev/shm" if os.path.isdir("/dev/shm") else None)
+    sys.path.insert(0, base)
+    try:
+        for name, xml in files.items():
+            os.makedirs(os.path.join(base, name))
+            open(os.path.join(base, name, "__init__.py"), "w").close()
+            with open(os.path.join(base, name, "component.xml"), "w") as f:
+                f.write(xml)
+            print("--- %s/component.xml\n%s" % (name, xml))
+        importlib.invalidate_caches()
+        yield
+    finally:
+        try:
+            sys.path.remove(base)
+        except ValueError:
+            pass
+        for k in [k for k in sys.modules if k.split(".")[0] in files]:
+            del sys.modules[k]
+        importlib.invalidate_caches()
+        shutil.rmtree(base, ignore_errors=True)
+
+
+def replay_pair(case):
+    """composed schema against its expansion: acceptance, structure, the text (twice)"""
     rc = 0
-    if case.get("feature") == "import-spelling":
-        return replay_spelling(case)
-    if case.get("feature") in ("schema-extends", "component-imports"):
-        print("cases with base files / generated packages are re-checked by ./check C11")
-        return 1
     for _ in range(2):
         sc, ec = load_or_error(case["composed"])
         se, ee = load_or_error(case["expanded"])
         print("composed schema:", ec or "accepted", "; expanded schema:", ee or "accepted")
         if (sc is None) != (se is None):
             rc = 1
-        elif sc is not None and "text" in case:
-            a, b = outcome(sc, case["text"]), outcome(se, case["text"])
-            print("text:\n" + case["text"] + "composed:", a[0], repr(a[1:])[:200], "\nexpanded:", b[0], repr(b[1:])[:200])
-            if a != b:
+        elif sc is not None:
+            if struct(sc) != struct(se):
+                print("structure differs:", struct_diff(struct(sc), struct(se)))
+                rc = 1
+            if "text" in case:
+                a, b = outcome(sc, case["text"]), outcome(se, case["text"])
+                print("text:\n" + case["text"] + "composed:", a[0], repr(a[1:])[:300], "\nexpanded:", b[0], repr(b[1:])[:300])
+                if a != b:
+                    rc = 1
+    return rc
+
+
+def replay_files(case):
+    """a schema that extends base files: the files are written out again and the schema is loaded from its path"""
+    import ZConfig
+    d = tempfile.mkdtemp(prefix="vz-c11-", dir="/dev/shm" if os.path.isdir("/dev/shm") else None)
+    rc = 0
+    try:
+        for fn, xml in case["files"].items():
+            with open(os.path.join(d, fn), "w") as f:
+                f.write(xml)
+            print("--- %s\n%s" % (fn, xml))
+        for _ in range(2):
+            try:
+                sc, ec = ZConfig.loadSchema(os.path.join(d, "htop.xml")), None
+            except Exception as e:
+                sc, ec = None, core.exc_desc(e)
+            se, ee = load_or_error(case["expanded"])
+            print("composed schema:", ec or "accepted", "; expanded schema:", ee or "accepted")
+            if (sc is None) != (se is None):
+                rc = 1
+            elif sc is not None:
+                if struct(sc, True) != struct(se, True):
+                    print("structure differs:", struct_diff(struct(sc, True), struct(se, True)))
+                    rc = 1
+                if "text" in case:
+                    a, b = unordered_top(outcome(sc, case["text"])), unordered_top(outcome(se, case["text"]))
+                    print("text:\n" + case["text"] + "composed:", a[0], repr(a[1:])[:300], "\nexpanded:", b[0], repr(b[1:])[:300])
+                    if a != b:
+                        rc = 1
+    finally:
+        shutil.rmtree(d, ignore_errors=True)
+    return rc
+
+
+def replay_history(case):
+    """the reads of the history one after the other against ONE fresh composed schema object; the last one is
+    held against the expansion of (schema, its own %import lines) - twice"""
+    rc = 0
+    with rebuilt_packages(case["components"]):
+        print("--- composed schema\n" + case["composed"])
+        for _ in range(2):
+            sc, ec = load_or_error(case["composed"])
+            print("composed schema:", ec or "accepted")
+            if sc is None:
+                rc = 1
+                continue
+            if "text" not in case:
+                rc = 1          # the schema had to be refused
+                continue
+            for n, t in enumerate(case["earlier_reads"], 1):
+                o = outcome(sc, t)
+                print("read %d: %r -> %s" % (n, t, o[0]))
+            got = outcome(sc, case["text"])
+            if case.get("expanded"):
+                se, ee = load_or_error(case["expanded"])
+                want = outcome(se, case["body"])
+            else:
+                want = ("R",)
+            print("read %d: %r\nsame schema object: %s %s\nexpansion, text without the lines: %s %s" % (
+                len(case["earlier_reads"]) + 1, case["text"], got[0], repr(got[1:])[:300], want[0], repr(want[1:])[:300]))
+            if got != want:
                 rc = 1
     return rc
+
+
+def replay(body):
+    case = body["case"]
+    if case.get("feature") == "import-spelling":
+        return replay_spelling(case)
+    if case.get("feature") == "import-history":
+        return replay_history(case)
+    if case.get("feature") == "homonyms" and "component" in case:
+        name = re.search(r'<import package="([^"]+)"/>', case["composed"]).group(1)
+        with rebuilt_packages({name: case["component"]}):
+            return replay_pair(case)
+    if case.get("feature") == "homonyms" and "files" in case:
+        return replay_files(case)
+    if case.get("feature") in ("schema-extends", "component-imports"):
+        print("cases with base files / generated packages are re-checked by ./check C11")
+        return 1
+    return replay_pair(case)
 
 
 def replay_spelling(case):
